@@ -42,6 +42,16 @@ def g_hw(tier):
         pid = 'hw/3/%s+%s+%s' % (t1, t2, t3)
         if tier == 'quick' and not stable_pick(pid, 100, 10): continue
         yield mk(pid, [f1(), f2(), f3()])
+    # the optimiser's look-ahead exits: a protected reload of the same operand after a flag clobber, followed by store / compare / load
+    loads = [('va', lambda: Raw('load', V('va'))), ('hw', lambda: Raw('load', Deref('INPT4'))), ('ax', lambda: Raw('load', Index('arr', V('X')))), ('k0', lambda: Raw('load', C(0)))]
+    clob = [('none', None), ('Xinc', lambda: ExprS(Inc('++', False, V('X')))), ('Ydec', lambda: ExprS(Inc('--', False, V('Y')))), ('a1inc', lambda: ExprS(Inc('++', False, Index('arr', C(1))))), ('cs3', lambda: Raw('csleep', 3))]
+    after = [('st_vb', lambda: Raw('store', V('vb'))), ('st_hw', lambda: Raw('store', Deref('COLUBK'))), ('asg', lambda: A(V('vb'), V('va'))), ('cmp', lambda: If(B('==', V('va'), C(3)), A(V('vb'), C(1))))]
+    nxt = [('none', None), ('y0', lambda: A(V('Y'), C(0))), ('x1', lambda: A(V('X'), C(1))), ('va3', lambda: A(V('va'), C(3))), ('ld0', lambda: Raw('load', C(0))), ('strobe', lambda: Raw('strobe', V('WSYNC')))]
+    for (ln, l), (cn, cl), (an, af), (nn, nx) in itertools.product(loads, clob, after, nxt):
+        stmts = [l()] + ([cl()] if cl else []) + [l(), af()] + ([nx()] if nx else [])
+        yield mk('hw/look/%s/%s/%s/%s' % (ln, cn, an, nn), stmts)
+        if cn != 'none' and nn in ('y0', 'none'):
+            yield mk('hw/look-if/%s/%s/%s/%s' % (ln, cn, an, nn), [If(B('==', Deref('INPT4'), C(3)), Block(stmts))])
     for (t1, f1), (t2, f2) in itertools.product(H, H):
         pid = 'hw/if/%s|%s' % (t1, t2)
         if tier == 'quick' and not stable_pick(pid, 100, 40): continue
